@@ -49,6 +49,12 @@ type c17Srv struct {
 	deleted []int
 	posts   []c17Comment // raw create requests, matched to pending comments afterwards
 	bad     []string
+	// failure injection: the k-th list / create / delete request of the run is answered with 403
+	fault                   c17Fault
+	nList, nCreate, nDelete int
+	hit                     bool
+	reqNo                   int
+	failedPost              map[int]bool // indexes of posts that were refused
 }
 
 var (
@@ -135,6 +141,9 @@ func (s *c17Srv) gitlab(w http.ResponseWriter, r *http.Request, p string, body [
 		write(out[lo:hi])
 	case p == "/api/v4/projects/1/merge_requests/7/versions":
 		write([]map[string]any{{"id": 2, "head_commit_sha": "head", "base_commit_sha": "base", "start_commit_sha": "start"}})
+	case c17GlDisc.MatchString(p) && r.Method == http.MethodGet && s.failNow("list", r):
+		w.WriteHeader(http.StatusForbidden)
+		write(map[string]string{"message": "403 Forbidden"})
 	case c17GlDisc.MatchString(p) && r.Method == http.MethodGet:
 		out := []disc{{ID: "1", Notes: []note{{ID: 1, System: true, Author: map[string]int{"id": c17User}, Body: "changed the description"}}}}
 		for k := 0; k < s.pad; k++ {
@@ -176,9 +185,15 @@ func (s *c17Srv) gitlab(w http.ResponseWriter, r *http.Request, p string, body [
 			if line == 0 {
 				line = req.Position.OldLine
 			}
+			s.posts = append(s.posts, c17Comment{Path: req.Position.NewPath, Line: line, Text: req.Body})
+			if s.failNow("create", r) {
+				s.failedPost[len(s.posts)-1] = true
+				w.WriteHeader(http.StatusForbidden)
+				write(map[string]string{"message": "403 Forbidden"})
+				return
+			}
 			c := s.add(req.Position.NewPath, line, req.Body, true)
 			s.creates = append(s.creates, c)
-			s.posts = append(s.posts, c17Comment{Path: req.Position.NewPath, Line: line, Text: req.Body})
 		}
 		w.WriteHeader(http.StatusCreated)
 		write(map[string]any{"id": "new"})
@@ -187,6 +202,13 @@ func (s *c17Srv) gitlab(w http.ResponseWriter, r *http.Request, p string, body [
 		id, _ := strconv.Atoi(m[2])
 		id -= 1000
 		pos := s.posBefore(id)
+		if s.failNow("delete", r) {
+			s.calls = append(s.calls, c17Call{"delete", pos, 2})
+			s.reqNo++
+			w.WriteHeader(http.StatusForbidden)
+			write(map[string]string{"message": fmt.Sprintf("403 Forbidden (request %d)", s.reqNo)}) // unique: GitLab reporter does not repeat an identical error comment
+			return
+		}
 		found := false
 		for k, c := range s.store {
 			if c.ID == id {
@@ -228,6 +250,9 @@ func (s *c17Srv) github(w http.ResponseWriter, r *http.Request, p string, body [
 			w.Header().Set("Link", fmt.Sprintf("<http://%s%s?%s>; rel=\"next\"", r.Host, r.URL.Path, q.Encode()))
 		}
 		write(out[lo:hi])
+	case p == pre+"pulls/7/comments" && r.Method == http.MethodGet && s.failNow("list", r):
+		w.WriteHeader(http.StatusForbidden)
+		write(map[string]string{"message": "Forbidden"})
 	case p == pre+"pulls/7/comments" && r.Method == http.MethodGet:
 		out := []map[string]any{}
 		for k := 0; k < s.pad; k++ {
@@ -259,9 +284,15 @@ func (s *c17Srv) github(w http.ResponseWriter, r *http.Request, p string, body [
 		if err := json.Unmarshal(body, &req); err != nil {
 			s.bad = append(s.bad, "bad comment body: "+err.Error())
 		}
+		s.posts = append(s.posts, c17Comment{Path: req.Path, Line: req.Line, Text: req.Body})
+		if s.failNow("create", r) {
+			s.failedPost[len(s.posts)-1] = true
+			w.WriteHeader(http.StatusForbidden)
+			write(map[string]string{"message": "Forbidden"})
+			return
+		}
 		c := s.add(req.Path, req.Line, req.Body, true)
 		s.creates = append(s.creates, c)
-		s.posts = append(s.posts, c17Comment{Path: req.Path, Line: req.Line, Text: req.Body})
 		w.WriteHeader(http.StatusCreated)
 		write(map[string]any{"id": c.ID})
 	case p == pre+"pulls/7/reviews" && r.Method == http.MethodGet:
@@ -300,6 +331,28 @@ func (s *c17Srv) github(w http.ResponseWriter, r *http.Request, p string, body [
 		w.WriteHeader(http.StatusNotFound)
 		write(map[string]string{"message": "404"})
 	}
+}
+
+// failNow counts the request and tells whether it is the one to refuse (only the first page of a listing counts)
+func (s *c17Srv) failNow(op string, r *http.Request) bool {
+	if op == "list" && r.URL.Query().Get("page") != "" && r.URL.Query().Get("page") != "1" {
+		return false
+	}
+	var n *int
+	switch op {
+	case "list":
+		n = &s.nList
+	case "create":
+		n = &s.nCreate
+	default:
+		n = &s.nDelete
+	}
+	*n++
+	if s.fault.Op == op && s.fault.K == *n {
+		s.hit = true
+		return true
+	}
+	return false
 }
 
 // page window [lo, hi) of n items for the request's page / per_page parameters; next = 0 when this is the last page
@@ -385,10 +438,14 @@ func c17RunCaseHTTP(id int, cs c17Case, emit func(any)) error {
 		for _, f := range []string{"F1", "F2"} {
 			abs := filepath.Join(dir, c17FileName[f])
 			srv.order = append(srv.order, abs)
-			srv.files[abs] = c17Patch(lr.total[f], lr.mod[f])
+			srv.files[abs] = lr.patch(f)
 		}
 		srv.before = append([]c17Comment{}, srv.store...)
 		srv.creates, srv.calls, srv.deleted, srv.posts = nil, []c17Call{}, []int{}, nil
+		srv.fault, srv.nList, srv.nCreate, srv.nDelete, srv.hit, srv.failedPost = run.Fault, 0, 0, 0, false, map[int]bool{}
+		if srv.fault.Op == "" || srv.fault.Op == "summary" || (srv.fault.Op == "list" && srv.fault.K > 1) {
+			srv.fault.Op = "none" // the summary of the real reporters is several REST calls; not injected here
+		}
 		ngen := len(srv.general)
 		srv.mu.Unlock()
 		pending := reporter.VerifMakeComments(lr.summary, cs.Showdup)
@@ -401,17 +458,10 @@ func c17RunCaseHTTP(id int, cs c17Case, emit func(any)) error {
 			srv.mu.Unlock()
 			return fmt.Errorf("case %d run %d: fake %s server got unexpected requests: %v", id, rn+1, cs.Plat, srv.bad)
 		}
-		type pendRec struct {
-			Path    string   `json:"path"`
-			Line    int      `json:"line"`
-			Tid     int      `json:"tid"`
-			Carries []string `json:"carries"`
-		}
-		pend := []pendRec{}
 		used := map[int]bool{}
 		// order the observed store-changing calls: creations (in request order) come before deletions in Submit
 		calls := []c17Call{}
-		for _, post := range srv.posts {
+		for pi, post := range srv.posts {
 			k := 0
 			for idx, q := range pending {
 				qp, qt, _, _ := reporter.VerifPendingFields(q)
@@ -421,18 +471,26 @@ func c17RunCaseHTTP(id int, cs c17Case, emit func(any)) error {
 					break
 				}
 			}
-			calls = append(calls, c17Call{"create", k, 0})
+			b := 0
+			if srv.failedPost[pi] {
+				b = 2
+			}
+			calls = append(calls, c17Call{"create", k, b})
 		}
 		calls = append(calls, srv.calls...)
-		for _, p := range pending {
-			path, text, line, _ := reporter.VerifPendingFields(p)
-			pend = append(pend, pendRec{c17AbsPath(path), line, in.id(text), c17Carries(text)})
+		// errors handed to the summary: GitLab posts them as a general comment, one "- `...`" line each
+		nerrs := 0
+		for _, g := range srv.general[ngen:] {
+			if strings.HasPrefix(g, "There were some errors") {
+				nerrs += strings.Count(g, "\n- `")
+			}
 		}
+		pend := c17PendRecs(in, pending)
 		reps := append([]string{}, run.Reports...)
 		emit(map[string]any{"ev": "Run", "id": id, "run": rn + 1, "reports": reps, "shift": run.Var.Shift, "mod": run.Var.Mod,
 			"pending": pend, "before": in.comments(srv.before), "listed": []int{}, "calls": calls, "callsobs": false,
 			"creates": in.comments(srv.creates), "deleted": srv.deleted, "after": in.comments(srv.store),
-			"general": len(srv.general) - ngen, "isequal": 0, "err": errStr})
+			"general": len(srv.general) - ngen, "isequal": 0, "err": errStr, "fault": srv.fault, "hit": srv.hit, "nerrs": nerrs})
 		srv.mu.Unlock()
 	}
 	return nil
